@@ -311,14 +311,15 @@ theorem w6_resumed_is_resumption (c : Cfg) {es : List Entry} (hes : (step c).st.
 
 /-! ### time-out -/
 
-theorem St.w6_onWaitTick_a0 (t : St) (w : Nat) (h0 : ((t.wait w).timeout == 0) = true) :
-    St.W6A (((t.addGen (.exc w false)).registerTask (t.wait w).owner
+theorem St.w6_onWaitTick_a0 (t : St) (w : Nat) (hg : ¬ ((t.wait w).flag || (t.wait w).timedOut) = true)
+    (h0 : ((t.wait w).timeout == 0) = true) :
+    St.W6A ((((t.modWait w fun x => { x with timedOut := true }).addGen (.exc w false)).registerTask (t.wait w).owner
         ⟨(t.wait w).taskEvent, t.gens.length, some (t.wait w).parentGen⟩).removeHandler (t.wait w).hDone
           (some ((t.wait w).evName.child sfxDone))).2 (t.onWaitTick w).2 := by
   unfold St.onWaitTick
   dsimp only
-  rw [if_pos h0]
-  generalize ((t.addGen (.exc w false)).registerTask (t.wait w).owner
+  rw [if_neg hg, if_pos h0]
+  generalize (((t.modWait w fun x => { x with timedOut := true }).addGen (.exc w false)).registerTask (t.wait w).owner
         ⟨(t.wait w).taskEvent, t.gens.length, some (t.wait w).parentGen⟩).removeHandler (t.wait w).hDone
           (some ((t.wait w).evName.child sfxDone)) = r1
   w6st_a
@@ -327,7 +328,8 @@ theorem St.w6_onWaitTick_a0 (t : St) (w : Nat) (h0 : ((t.wait w).timeout == 0) =
     `TimeoutError` task) takes `w` to w6_phase 4: from then on no resumption step of `w` can happen -/
 theorem w6_timeout_finishes {n0 : Nat} {c : Cfg} (h : W6CInv n0 c) (w r hh e : Nat) (k : List Frame)
     (hs : c.stack = .invoke r hh e :: k) (hx : c.exn = none) (hk : (c.st.handler hh).kind = .waitTick w)
-    (h0 : (c.st.wait w).timeout = 0) : w6_phase (step c).st w = 4 := by
+    (h0 : (c.st.wait w).timeout = 0)
+    (hfl : (c.st.wait w).flag = false) (hto : (c.st.wait w).timedOut = false) : w6_phase (step c).st w = 4 := by
   have h' := w6_step_cinv c h
   have hlt := c.st.w6_handler_lt_of_wait hh (by rw [hk]; rfl)
   obtain ⟨hw, hst, _⟩ := h.w.1.kindTick hh w hlt hk
@@ -342,12 +344,13 @@ theorem w6_timeout_finishes {n0 : Nat} {c : Cfg} (h : W6CInv n0 c) (w r hh e : N
     intro hin'
     unfold St.w6_doneInst at hin'
     rw [e1, e2, e3, hstep] at hin'
-    have hA := St.w6_onWaitTick_a0 (c.w6_invokeSt hh e) w (by rw [Cfg.w6_invokeSt_wait]; simp [h0])
+    have hA := St.w6_onWaitTick_a0 (c.w6_invokeSt hh e) w (by rw [Cfg.w6_invokeSt_wait]; simp [hfl, hto])
+      (by rw [Cfg.w6_invokeSt_wait]; simp [h0])
     simp only [Cfg.w6_invokeSt_wait] at hA
     rcases hA.add _ _ hin' with hm | hm
-    · have hnd : ((((c.w6_invokeSt hh e).addGen (.exc w false)).registerTask (c.st.wait w).owner
+    · have hnd : (((((c.w6_invokeSt hh e).modWait w fun x => { x with timedOut := true }).addGen (.exc w false)).registerTask (c.st.wait w).owner
           ⟨(c.st.wait w).taskEvent, (c.w6_invokeSt hh e).gens.length, some (c.st.wait w).parentGen⟩).comp
-          ((((c.w6_invokeSt hh e).addGen (.exc w false)).registerTask (c.st.wait w).owner
+          (((((c.w6_invokeSt hh e).modWait w fun x => { x with timedOut := true }).addGen (.exc w false)).registerTask (c.st.wait w).owner
           ⟨(c.st.wait w).taskEvent, (c.w6_invokeSt hh e).gens.length, some (c.st.wait w).parentGen⟩).handler
             (c.st.wait w).hDone).owner).htab.Nodup := by
         unfold St.registerTask; rw [St.w6_modComp_mk_htab]
@@ -362,7 +365,7 @@ theorem w6_timeout_finishes {n0 : Nat} {c : Cfg} (h : W6CInv n0 c) (w r hh e : N
         unfold Cfg.w6_invokeSt; split <;> exact r1)
       dsimp only at this
       rw [St.w6_removeHandler_handler] at this
-      have hh' : (((c.w6_invokeSt hh e).addGen (.exc w false)).registerTask (c.st.wait w).owner
+      have hh' : ((((c.w6_invokeSt hh e).modWait w fun x => { x with timedOut := true }).addGen (.exc w false)).registerTask (c.st.wait w).owner
           ⟨(c.st.wait w).taskEvent, (c.w6_invokeSt hh e).gens.length, some (c.st.wait w).parentGen⟩).handler
             (c.st.wait w).hDone = c.st.handler (c.st.wait w).hDone := by
         unfold Cfg.w6_invokeSt; split <;> rfl
